@@ -1055,6 +1055,8 @@ def check_C08(rep):
     common_stage(rep)
     FX.run_replay(rep, "D13", fixed=True)
     FX.run_fixed(rep, "ownership.cpp", "g++", "", "recovery-result-wrong")
+    # recovery through the fixed-capacity stacks of cstring_buffer: a single recovery (one error symbol on the stack) must continue, never throw
+    FX.run_fixed(rep, "cstring_stack.cpp", "g++", "", "recovery-with-a-cstring-buffer-does-not-continue-normally")
     run = h1_stage(rep)
     if run is None: return rep
     def nt(cid, j, inp, ri, want, msgs): return any("Syntax error" in m for m in msgs) and (want.startswith("VALUE") or sum("Syntax error" in m for m in msgs) >= 2)
